@@ -646,7 +646,7 @@ int hwloc_distances_add_values(hwloc_topology_t topology,
 
   /* no strict need to check for duplicates, things shouldn't break */
 
-  for(i=1; i<nbobjs; i++)
+  for(i=0; i<nbobjs; i++)
     if (!objs[i]) {
       errno = EINVAL;
       goto out;
